@@ -36,6 +36,7 @@ type ShardResult struct {
 	Slow        []int          `json:"slow,omitempty"`
 	Done        bool           `json:"done"`
 	Next        int            `json:"next,omitempty"`  // the shard stopped on purpose (fresh process per batch); resume here
+	Ckpt        int            `json:"ckpt,omitempty"`  // every case below this index that belongs to the shard is accounted for in this file
 	Abort       string         `json:"abort,omitempty"` // "cpu" or "heap": watchdog fired in AbortCase
 	AbortCase   int            `json:"abort_case,omitempty"`
 	AbortSig    string         `json:"abort_sig,omitempty"` // signature the running case declared for a hang
